@@ -59,7 +59,8 @@ Lemma start_origin p line hl x :
                                 (if suppress env st then WList [] else w0) st wrote).
 Proof.
   intros Hin.
-  destruct (wsgi_cases env eh p) as [evH st0 o w0 st wrote hl1 Hh Hc Hl | evH st0 o Hh Hc | evH st0 o w0 st wrote Hh Hc Hl].
+  destruct (wsgi_cases env eh p) as [evH st0 o w0 st wrote hl1 Hh Hc Hl | evH st0 o Hh Hc | evH st0 o w0 st wrote Hh Hc Hl
+                                    | evH st0 o w0 st wrote Hh Hc Hesc].
   - right. cbn [all_events] in Hin. rewrite <- !app_assoc in Hin.
     apply start_in_mid in Hin.
     + inversion Hin; subst. split; [reflexivity|]. exists evH, st0, o, w0, st, wrote.
@@ -74,6 +75,8 @@ Proof.
   - left. apply (catchall_start (evH ++ (if suppress env st then close_events w0 else [])) st); [|exact Hin].
     rewrite count_app.
     rewrite (pre_not is_start evH pre_no_start (handle_pre _ _ _ _ Hh)), evC_no_start. reflexivity.
+  - exfalso. cbn [all_events] in Hin.
+    exact (pre_not_in evH (EvStart line hl x) (handle_pre _ _ _ _ Hh) eq_refl Hin).
 Qed.
 End Start.
 
@@ -137,8 +140,8 @@ Definition Tr : str -> Prop := fun _ => True.
 Definition TrI : list item -> Prop := fun _ => True.
 
 Lemma status_wf env eh p :
-  wf_program status_ok Tr Tr TrI p ->
-  (forall c h r o, eh c = Some h -> wf_resp status_ok Tr Tr TrI r -> h r = ERet o -> wf_out status_ok Tr Tr TrI o) ->
+  wf_program status_ok Tr Tr TrI True p ->
+  (forall c h r o, eh c = Some h -> wf_resp status_ok Tr Tr TrI True r -> h r = ERet o -> wf_out status_ok Tr Tr TrI True o) ->
   forall line hl x, In (EvStart line hl x) (all_events (wsgi env eh p)) ->
     status_line_wf line
     /\ (x = false -> forall ev w st b, wsgi env eh p = WsOk ev w st b ->
@@ -147,8 +150,8 @@ Proof.
   intros Hp Heh line hl x Hin.
   destruct (start_origin env eh p line hl x Hin) as [[-> [-> _]]|[-> [evH [st0 [o [w0 [st [wrote [Hh [Hc [Hl [-> Hw]]]]]]]]]]]].
   - split; [apply (status_ok_wf 500), status_ok_catchall|discriminate].
-  - destruct (wsgi_invariant status_ok Tr Tr TrI status_ok_200 status_ok_500 status_ok_404 status_ok_405
-                I I I (fun _ => I) I env eh Heh I p evH st0 o w0 st wrote Hp Hh Hc) as [[S _] _].
+  - destruct (wsgi_invariant status_ok Tr Tr TrI True status_ok_200 status_ok_500 status_ok_404 status_ok_405
+                I I I (fun _ => I) I env eh Heh (fun _ _ _ _ _ _ => I) I p evH st0 o w0 st wrote Hp Hh Hc) as [[S _] _].
     destruct (status_ok_wf _ _ S) as [W V]. split; [exact W|].
     intros _ ev w st' b Hw'. rewrite Hw in Hw'. inversion Hw'; subst. auto.
 Qed.
@@ -268,16 +271,16 @@ Proof.
 Qed.
 
 Lemma headers_wf env eh p :
-  wf_program Tst name_ok hval_ok TrI p ->
-  (forall c h r o, eh c = Some h -> wf_resp Tst name_ok hval_ok TrI r -> h r = ERet o ->
-                   wf_out Tst name_ok hval_ok TrI o) ->
+  wf_program Tst name_ok hval_ok TrI True p ->
+  (forall c h r o, eh c = Some h -> wf_resp Tst name_ok hval_ok TrI True r -> h r = ERet o ->
+                   wf_out Tst name_ok hval_ok TrI True o) ->
   forall line hl x, In (EvStart line hl x) (all_events (wsgi env eh p)) -> Forall kv_ok hl.
 Proof.
   intros Hp Heh line hl x Hin.
   destruct (start_origin env eh p line hl x Hin) as [[_ [_ ->]]|[_ [evH [st0 [o [w0 [st [wrote [Hh [Hc [Hl _]]]]]]]]]]].
   - constructor; [|constructor]. split; reflexivity.
-  - destruct (wsgi_invariant Tst name_ok hval_ok TrI I I I I eq_refl eq_refl eq_refl dec_str_hval eq_refl
-                env eh Heh I p evH st0 o w0 st wrote Hp Hh Hc) as [[_ [S2 S3]] _].
+  - destruct (wsgi_invariant Tst name_ok hval_ok TrI True I I I I eq_refl eq_refl eq_refl dec_str_hval eq_refl
+                env eh Heh (fun _ _ _ _ _ _ => I) I p evH st0 o w0 st wrote Hp Hh Hc) as [[_ [S2 S3]] _].
     eapply headerlist_ok; eassumption.
 Qed.
 
@@ -299,7 +302,7 @@ Definition is_cbytes (c : chunk) : bool := match c with CBytes _ => true | CBad 
 Lemma iter_rest_str st l : forallb is_cbytes (fst (iter_rest MStr st l)) = true.
 Proof.
   induction l as [|i t IH]; simpl; [reflexivity|].
-  destruct i as [o|e r|j]; try reflexivity.
+  destruct i as [o|e r|j|b0]; try reflexivity.
   destruct o; try reflexivity.
   destruct (encode st s); [|reflexivity].
   destruct (iter_rest MStr st t) as [c r]. simpl in *. exact IH.
@@ -308,7 +311,7 @@ Qed.
 Lemma iter_rest_bytes st l : bytes_tail_ok l -> forallb is_cbytes (fst (iter_rest MBytes st l)) = true.
 Proof.
   induction l as [|i t IH]; simpl; intros H; [reflexivity|].
-  destruct i as [o|e r|j]; try reflexivity.
+  destruct i as [o|e r|j|b0]; try reflexivity.
   destruct o; try contradiction.
   destruct (iter_rest MBytes st t) as [c r]. simpl in *. now apply IH.
 Qed.
@@ -316,9 +319,9 @@ Qed.
 Definition body_chunks_ok (e : event) : Prop :=
   match e with EvBody cs => forallb is_cbytes cs = true | _ => True end.
 
-Lemma consume_chunks_ok w st : w_ok bytes_tail_ok w -> Forall body_chunks_ok (consume w st).
+Lemma consume_chunks_ok w st : w_ok bytes_tail_ok True w -> Forall body_chunks_ok (consume w st).
 Proof.
-  intros Hw. destruct w as [cs | id hc content | m f r cl]; simpl.
+  intros Hw. destruct w as [cs | id hc content | m f r cl |]; simpl; [| | |constructor].
   - constructor; [|constructor]. simpl. induction cs; simpl; auto.
   - constructor; [destruct content; reflexivity|]. destruct hc; repeat constructor.
   - destruct (iter_rest m st r) as [c raised] eqn:E.
@@ -336,17 +339,18 @@ Proof.
 Qed.
 
 Lemma body_bytes env eh p :
-  wf_program Tst Tr Tr bytes_tail_ok p ->
-  (forall c h r o, eh c = Some h -> wf_resp Tst Tr Tr bytes_tail_ok r -> h r = ERet o ->
-                   wf_out Tst Tr Tr bytes_tail_ok o) ->
+  wf_program Tst Tr Tr bytes_tail_ok True p ->
+  (forall c h r o, eh c = Some h -> wf_resp Tst Tr Tr bytes_tail_ok True r -> h r = ERet o ->
+                   wf_out Tst Tr Tr bytes_tail_ok True o) ->
   forall cs, In (EvBody cs) (all_events (wsgi env eh p)) -> forallb is_cbytes cs = true.
 Proof.
   intros Hp Heh cs Hin.
   assert (H : Forall body_chunks_ok (all_events (wsgi env eh p))).
-  { destruct (wsgi_cases env eh p) as [evH st0 o w0 st wrote hl Hh Hc Hl | evH st0 o Hh Hc | evH st0 o w0 st wrote Hh Hc Hl].
+  { destruct (wsgi_cases env eh p) as [evH st0 o w0 st wrote hl Hh Hc Hl | evH st0 o Hh Hc | evH st0 o w0 st wrote Hh Hc Hl
+                                      | evH st0 o w0 st wrote Hh Hc Hesc]; [| | |exact (Forall_pre_body _ (handle_pre _ _ _ _ Hh))].
     - cbn [all_events].
-      destruct (wsgi_invariant Tst Tr Tr bytes_tail_ok I I I I I I I (fun _ => I) I
-                  env eh Heh I p evH st0 o w0 st wrote Hp Hh Hc) as [_ W].
+      destruct (wsgi_invariant Tst Tr Tr bytes_tail_ok True I I I I I I I (fun _ => I) I
+                  env eh Heh (fun _ _ _ _ _ _ => I) I p evH st0 o w0 st wrote Hp Hh Hc) as [_ W].
       apply Forall_app. split.
       + apply Forall_app. split; [exact (Forall_pre_body _ (handle_pre _ _ _ _ Hh))|].
         apply Forall_app. split; [|repeat constructor].
@@ -401,7 +405,7 @@ Definition done_cl (sr : step_res) : Prop :=
 Lemma peek_not_wrote items close st : done_cl (peek items close st).
 Proof.
   induction items as [|i t IH]; cbn [peek]; [exact I|].
-  destruct i as [o|e r|j]; try exact I.
+  destruct i as [o|e r|j|b0]; try exact I.
   destruct (falsy o); [exact IH|].
   destruct o; try exact I. destruct (encode st s); exact I.
 Qed.
@@ -422,15 +426,16 @@ Proof.
   - unfold done_cl. destruct (h_mem n_content_length (s_hs st)) eqn:Hm; simpl; [exact I|].
     exists []. split; [reflexivity|]. simpl. change (dec_str_of_nat 0) with (lit "0").
     now apply setdefault_fresh.
-  - destruct o as [|s|b|e r|id hc hi c ty|id hc its ty|ty ej]; try exact I.
+  - destruct o as [|s|b|e r|id hc hi c ty|id hc its ty|ty ej|b0]; try exact I.
     + destruct (encode st s); [apply done_bytes_cl|exact I].
     + apply done_bytes_cl.
     + destruct e.
-      * destruct (eh (r_code r)) as [h|]; [destruct (h r); exact I|].
+      * destruct (eh (r_code r)) as [h|]; [destruct (h r) as [?|[|]]; exact I|].
         destruct (default_eh env r (apply r st)) as [[pg st2]|]; exact I.
       * exact I.
     + destruct (e_fw env); [exact I|]. destruct (hc || negb hi); [exact I|]. apply peek_not_wrote.
     + apply peek_not_wrote.
+    + destruct b0; exact I.
 Qed.
 
 Lemma step_cl cnt o st : done_cl (step env eh cnt o st).
@@ -579,10 +584,12 @@ Proof.
   { intros A st E. destruct (catchall_cases env A st) as [[_ E']|[[_ [b [_ E']]]|[Hh [Hn E']]]]; try congruence.
     destruct Hs as [Hs|Hs]; [|congruence].
     destruct (critical_page_encodable _ Hs) as [b Hb]. congruence. }
-  destruct (wsgi_cases env eh p) as [evH st0 o w0 st wrote hl Hh Hc' Hl | evH st0 o Hh Hc' | evH st0 o w0 st wrote Hh Hc' Hl].
+  destruct (wsgi_cases env eh p) as [evH st0 o w0 st wrote hl Hh Hc' Hl | evH st0 o Hh Hc' | evH st0 o w0 st wrote Hh Hc' Hl
+                                    | evH st0 o w0 st wrote Hh Hc' Hesc].
   - discriminate.
   - exact (Hc _ _ He).
   - exact (Hc _ _ He).
+  - discriminate.
 Qed.
 
 Definition is500 (st : rstate) : Prop := s_code st = 500%Z /\ s_line st = l500.
@@ -673,7 +680,7 @@ Lemma peek_raises items close st :
   first_next_raises items -> exists j, peek items close st = SCont (OHttp true (err_unhandled j)) st.
 Proof.
   induction items as [|i t IH]; simpl; [contradiction|].
-  destruct i as [o|e r|j]; try contradiction.
+  destruct i as [o|e r|j|b0]; try contradiction.
   - intros [Hf Ht]. rewrite Hf. now apply IH.
   - intros _. eauto.
 Qed.
@@ -682,7 +689,7 @@ Lemma cast_crash_500 fuel o st : crashes_at_first_next o -> done500 (cast env eh
 Proof.
   intros H. destruct fuel as [|f]; cbn [cast]; [exact I|].
   unfold step. cbn [Nat.ltb Nat.leb]. unfold step_body.
-  destruct o as [|s|b|e r|id hc hi c ty|id hc its ty|ty ej]; try contradiction.
+  destruct o as [|s|b|e r|id hc hi c ty|id hc its ty|ty ej|b0]; try contradiction.
   - cbn [falsy]. destruct (peek_raises its (if hc then Some id else None) st H) as [j ->].
     now apply cast_err_500.
   - cbn [falsy]. now apply cast_err_500.
@@ -728,10 +735,11 @@ Proof.
   induction idx as [|i idx IH]; intros [|h hs] st ev st' x Hlen H; simpl in Hlen; try discriminate.
   - simpl in H. inversion H; subst. split; [reflexivity|]. split; reflexivity.
   - cbn [combine run_hooks] in H. unfold run_prog in H. unfold all_ret, fails_h. cbn [ran forallb]. unfold fails_h.
-    destruct (h_res h) as [o|e r|j].
+    destruct (h_res h) as [o|e r|j|b0].
     + destruct (run_hooks tag (combine idx hs) (apply_muts (h_muts h) st)) as [[ev2 st2] x2] eqn:Hr.
       inversion H; subst. destruct (IH hs _ _ _ _ (eq_add_S _ _ Hlen) Hr) as [-> Hx].
       split; [reflexivity|exact Hx].
+    + inversion H; subst. split; [reflexivity|]. split; discriminate.
     + inversion H; subst. split; [reflexivity|]. split; discriminate.
     + inversion H; subst. split; [reflexivity|]. split; discriminate.
 Qed.
@@ -789,10 +797,11 @@ Proof.
   induction l as [|[i h] t IH]; intros st ev st' x H.
   - simpl in H. inversion H; subst. split; [reflexivity|]. split; reflexivity.
   - cbn [run_hooks] in H. unfold run_prog in H. unfold all_ret. cbn [map snd ran forallb]. unfold fails_h.
-    destruct (h_res h) as [o|e r|j].
+    destruct (h_res h) as [o|e r|j|b0].
     + destruct (run_hooks tag t (apply_muts (h_muts h) st)) as [[ev2 st2] x2] eqn:Hr.
       inversion H; subst. destruct (IH _ _ _ _ Hr) as [-> Hx].
       split; [reflexivity|exact Hx].
+    + inversion H; subst. split; [reflexivity|]. split; discriminate.
     + inversion H; subst. split; [reflexivity|]. split; discriminate.
     + inversion H; subst. split; [reflexivity|]. split; discriminate.
 Qed.
@@ -958,4 +967,77 @@ Proof.
        [IYield (OHttp false (mkResp 200 (lit "200 OK") [] [] (OStr (lit "x")) [] None [] false))] []))))).
   split; [vm_compute; discriminate|]. split; [vm_compute; reflexivity|].
   eexists _, _, _. split; [reflexivity|discriminate].
+Qed.
+
+(* ------------------------------------------------------------------ *)
+(* exceptions the except clauses let through on purpose                *)
+(* ------------------------------------------------------------------ *)
+
+(* when one went to the server, the server saw what _handle did (hooks, routing, handler)
+   and nothing else: no close(), no start_response, no body *)
+Lemma passed_events env eh p ev :
+  wsgi env eh p = WsPassed ev -> ev = fst (fst (handle p)) /\ count is_start ev = 0.
+Proof.
+  intros H.
+  destruct (wsgi_cases env eh p) as [evH st0 o w0 st wrote hl Hh Hc Hl | evH st0 o Hh Hc | evH st0 o w0 st wrote Hh Hc Hl
+                                    | evH st0 o w0 st wrote Hh Hc Hesc].
+  - discriminate.
+  - pose proof (catchall_not_passed env evH st0) as N. rewrite H in N. discriminate.
+  - pose proof (catchall_not_passed env (evH ++ (if suppress env st then close_events w0 else [])) st) as N.
+    rewrite H in N. discriminate.
+  - inversion H; subst. rewrite Hh. split; [reflexivity|].
+    exact (pre_not is_start ev pre_no_start (handle_pre _ _ _ _ Hh)).
+Qed.
+
+(* a program in which nobody raises such an exception (hooks, handler, iterables, nested
+   response bodies, error handlers) is always answered *)
+Lemma no_escape_not_passed env eh p :
+  wf_program Tst Tr Tr TrI False p ->
+  (forall c h r o, eh c = Some h -> wf_resp Tst Tr Tr TrI False r -> h r = ERet o -> wf_out Tst Tr Tr TrI False o) ->
+  (forall c h r, eh c = Some h -> wf_resp Tst Tr Tr TrI False r -> h r <> ERaise false) ->
+  passed (wsgi env eh p) = false.
+Proof.
+  intros Hp Heh Hne.
+  destruct (wsgi_cases env eh p) as [evH st0 o w0 st wrote hl Hh Hc Hl | evH st0 o Hh Hc | evH st0 o w0 st wrote Hh Hc Hl
+                                    | evH st0 o w0 st wrote Hh Hc Hesc].
+  - reflexivity.
+  - apply catchall_not_passed.
+  - apply catchall_not_passed.
+  - exfalso.
+    destruct (wsgi_invariant Tst Tr Tr TrI False I I I I I I I (fun _ => I) I env eh Heh
+                (fun c h r E W R => Hne c h r E W R) I p evH st0 o w0 st wrote Hp Hh Hc) as [_ W].
+    destruct w0; try discriminate Hesc. exact W.
+Qed.
+
+(* which classes: an Exception subclass outside the tuples read from the source is an ordinary
+   crash (a 500 error object, right where it was raised); everything else is let through *)
+Lemma fate_handle_ordinary mro :
+  is_exception mro = true -> mro_in Gen.passthrough_handle mro = false -> fate_handle mro = FOrdinary.
+Proof. intros A B. unfold fate_handle. now rewrite B, A. Qed.
+Lemma fate_cast_ordinary mro :
+  is_exception mro = true -> mro_in Gen.passthrough_cast mro = false -> fate_cast mro = FOrdinary.
+Proof. intros A B. unfold fate_cast. now rewrite B, A. Qed.
+Lemma fate_handle_escape mro :
+  is_exception mro = false \/ mro_in Gen.passthrough_handle mro = true ->
+  fate_handle mro = FEscape (to_catchall mro).
+Proof.
+  unfold fate_handle. intros [A|B].
+  - rewrite A. now destruct (mro_in Gen.passthrough_handle mro).
+  - now rewrite B.
+Qed.
+Lemma fate_cast_escape mro :
+  is_exception mro = false \/ mro_in Gen.passthrough_cast mro = true ->
+  fate_cast mro = FEscape (to_catchall mro).
+Proof.
+  unfold fate_cast. intros [A|B].
+  - rewrite A. now destruct (mro_in Gen.passthrough_cast mro).
+  - now rewrite B.
+Qed.
+Lemma to_catchall_spec mro :
+  to_catchall mro = true <-> is_exception mro = true /\ mro_in Gen.passthrough_wsgi mro = false.
+Proof.
+  unfold to_catchall. split.
+  - intros H. apply andb_prop in H. destruct H as [A B]. split; [exact A|].
+    now destruct (mro_in Gen.passthrough_wsgi mro).
+  - intros [A B]. now rewrite A, B.
 Qed.
